@@ -289,8 +289,14 @@ func (s *httpServer) doMPUB(w http.ResponseWriter, req *http.Request, ps httprou
 	}
 	if binaryMode {
 		tmp := make([]byte, 4)
-		msgs, err = readMPUB(req.Body, tmp, topic,
+		// a chunked request has no Content-Length to check up front:
+		// add 1 so that it's greater than our max when we test for it
+		lr := &io.LimitedReader{R: req.Body, N: s.nsqd.getOpts().MaxBodySize + 1}
+		msgs, err = readMPUB(lr, tmp, topic,
 			s.nsqd.getOpts().MaxMsgSize, s.nsqd.getOpts().MaxBodySize)
+		if lr.N <= 0 {
+			return nil, http_api.Err{413, "BODY_TOO_BIG"}
+		}
 		if err != nil {
 			return nil, http_api.Err{413, err.(*protocol.FatalClientErr).Code[2:]}
 		}
